@@ -271,13 +271,27 @@ func caseAsCommands(c Node) []Node {
 		out = append(out, Node{"kind": "settransform", "name": nstr(t, "name"), "stmts": nlist(t, "stmts")})
 	}
 	for _, cmd := range nlist(c, "cmds") {
-		n := Node{"kind": nstr(cmd, "kind"), "amt": normAmount(nnode(cmd, "amt")), "body": nlist(cmd, "body")}
-		if nstr(cmd, "kind") == "replace" {
-			n["with"] = nlist(cmd, "with")
+		for _, d := range nlist(cmd, "defs_before") {
+			pred := nlist(d, "pred")
+			if pred == nil {
+				pred = []Node{}
+			}
+			out = append(out, Node{"kind": "setpattern", "name": nstr(d, "name"), "es": nlist(d, "es"), "pred": pred})
 		}
-		out = append(out, n)
+		out = append(out, commandAsNode(cmd))
 	}
 	return out
+}
+
+func commandAsNode(cmd Node) Node {
+	if nstr(cmd, "kind") == "setmatches" {
+		return Node{"kind": "setmatches", "name": nstr(cmd, "name"), "cmd": commandAsNode(nnode(cmd, "cmd"))}
+	}
+	n := Node{"kind": nstr(cmd, "kind"), "amt": normAmount(nnode(cmd, "amt")), "body": nlist(cmd, "body")}
+	if nstr(cmd, "kind") == "replace" {
+		n["with"] = nlist(cmd, "with")
+	}
+	return n
 }
 
 // `top n` and `take n` are the same tree
